@@ -1,6 +1,8 @@
 """C15 - UDP retransmission envelope + own message ids ignored (DESIGN.md section 4, C15)."""
+import collections
 import json
 import subprocess
+import time
 
 from lib import NAT, Raw, coqlit
 
@@ -45,8 +47,310 @@ def gen_dedup(rng, n, cap_choices):
     return cases
 
 
+
+# ---------------------------------------------------------------------------------------------- stream 4: the node
+# The real WSDiscovery + the real NetworkingThread inside a discrete-event simulation (harness/impl/c15_sim.py).
+MULTICAST_KINDS = ('Hello', 'Bye', 'Probe', 'Resolve')            # to the multicast group, multicast parameter set
+UNICAST_KINDS = ('ProbeMatches', 'ResolveMatches')                # to the requester, unicast parameter set
+NODE_DELAYS = [0, 0, 3, 20, 60, 150, 400, 900, 1600, 2600]
+SCOPE = ['http://s.example/a']
+OP_TO_COQ = {'pub': 'OpPublish', 'clear': 'OpClearService', 'clear_local': 'OpClearLocal', 'clear_remote': 'OpClearRemote',
+             'search': 'OpSearch', 'search_multi': 'OpSearch', 'found': 'OpFound', 'restart': 'OpStop', 'stop': 'OpStop'}
+
+
+def local_epr(i):
+    return f'urn:uuid:11111111-0000-0000-0000-{i:012d}'
+
+
+def peer_epr(i):
+    return f'urn:uuid:22222222-0000-0000-0000-{i:012d}'
+
+
+def gen_peer_msg(rng):
+    r = rng.random()
+    if r < 0.28:
+        return {'kind': 'probe', 'types': rng.choice([None, ['Dev'], ['Dev'], ['Other'], ['Nope']])}
+    if r < 0.5:
+        return {'kind': 'resolve', 'epr': rng.choice([local_epr(0), local_epr(1), local_epr(2), peer_epr(9)])}
+    svc = {'epr': peer_epr(rng.randint(0, 3)), 'types': rng.choice([['Dev'], ['Dev'], None]),
+           'scopes': rng.choice([SCOPE, SCOPE, None]), 'xaddrs': rng.choice([['http://10.0.0.9:1/x'], ['http://10.0.0.9:1/x'], None]),
+           'mdv': rng.randint(1, 3)}
+    if r < 0.68:
+        return {'kind': 'hello', 'svc': svc}
+    if r < 0.86:
+        more = [dict(svc, epr=peer_epr(rng.randint(0, 3)), xaddrs=None)] if rng.random() < 0.3 else []
+        return {'kind': 'probematches', 'matches': [svc] + more}
+    if r < 0.93:
+        return {'kind': 'resolvematches', 'svc': svc}
+    return {'kind': 'bye', 'epr': peer_epr(rng.randint(0, 3))}
+
+
+def gen_node_case(rng, seed):
+    """one scenario: API calls of every kind and datagrams of peers, at short distances, so that operations hit the
+    node while own messages are in flight (every own multicast transmission is looped back by the simulation)"""
+    cap = rng.choice([None, None, None, 2, 3, 5, 8])
+    ops, sent = [], []
+    mid = 0
+    first = True
+    for _ in range(rng.randint(3, 9)):
+        d = 0 if first else rng.choice(NODE_DELAYS)
+        r = 0.0 if first else rng.random()
+        first = False
+        if r < 0.2:
+            ops.append([d, 'pub', rng.randint(0, 2), rng.choice([['Dev'], ['Dev'], ['Dev', 'Other'], ['Other']]), SCOPE,
+                        rng.random() < 0.8])
+        elif r < 0.27:
+            ops.append([d, 'clear', rng.randint(0, 2)])
+        elif r < 0.32:
+            ops.append([d, 'clear_local'])
+        elif r < 0.44:
+            ops.append([d, 'clear_remote'])
+        elif r < 0.53:
+            ops.append([d, 'search', rng.choice([None, ['Dev']]), rng.choice([0.2, 0.6, 1.3]), rng.choice([0.1, 0.5, 3])])
+        elif r < 0.56:
+            ops.append([d, 'search_multi', rng.choice([[['Dev']], [['Dev'], ['Other']]]), 0.3, rng.choice([0.2, 1])])
+        elif r < 0.6:
+            ops.append([d, 'found'])
+        elif r < 0.66:
+            ops.append([d, 'restart', rng.choice([0, 50, 400])])
+        else:
+            if sent and rng.random() < 0.25:           # a peer repeats a datagram (same message id)
+                ops.append([d, 'in'] + rng.choice(sent))
+            else:
+                mid += 1
+                x = [mid, rng.randint(0, 2), gen_peer_msg(rng)]
+                sent.append(x)
+                ops.append([d, 'in'] + x)
+                if cap is not None and rng.random() < 0.3:     # a burst of foreign messages pushes own ids out of a small memory
+                    for _ in range(rng.randint(1, cap + 1)):
+                        mid += 1
+                        ops.append([rng.choice([0, 3, 20]), 'in', mid, rng.randint(0, 2), {'kind': 'bye', 'epr': peer_epr(8)}])
+    return {'seed': seed, 'cap': cap, 'ops': ops, 'tail_ms': rng.choice([2700, 2700, 900, 100])}
+
+
+def oracle_node(sc, res, P, real_cap):
+    """The property evaluated directly on the trace of one simulated node.  Returns (failures, stats);
+    a failure is (what, clause, kind, detail)."""
+    fails = []
+    stats = collections.Counter()
+    idle, busy = (min(x, 250000) for x in res['raster_us'])
+    group = res['multicast']
+    # the requester of an answer = the sender of the datagram it relates to, as handed to handle_received_message
+    # (a peer, or the node itself when one of its own Probes was handled after its id had left a small memory)
+    peer_of = {h['id']: h['from'] for h in res['handled']}
+    tx_by = {}
+    for x in res['tx']:
+        tx_by.setdefault(x['id'], []).append(x)
+    if res['error']:
+        fails.append((f'the node failed: {res["error"]}', 'node-error', None, None))
+    if res['left']:
+        fails.append((f'{res["left"]} queue entries were never transmitted although stop() joined the send thread',
+                      'never-transmitted', None, None))
+    out_ids = set()
+    for o in res['outs']:
+        out_ids.add(o['id'])
+        kind = o['kind']
+        if kind in MULTICAST_KINDS:
+            want_set, want_to = 'M', group
+        elif kind in UNICAST_KINDS:
+            want_set, want_to = 'U', peer_of.get(o['relates'])
+        else:
+            fails.append((f'outgoing message of unknown kind {kind!r}', 'unknown-kind', kind, o))
+            continue
+        stats[f'{kind}:{o["pset"]}:{"group" if o["to"] == group else "unicast"}'] += 1
+        cast = 'multicast' if want_set == 'M' else 'unicast answer'
+        if o['to'] != want_to:
+            fails.append((f'{kind} ({cast}) is addressed to {o["to"]}, expected {want_to}', 'destination', kind, o))
+            continue
+        if o['pset'] != want_set:
+            names = {'M': 'MULTICAST_REPEAT_PARAMS', 'U': 'UNICAST_REPEAT_PARAMS', 'other': f'an unnamed parameter object {o["pvals"]}'}
+            fails.append((f'{kind} ({cast} to {o["to"][0]}:{o["to"][1]}) is scheduled with {names[o["pset"]]}: '
+                          f'{len(o["entries"])} transmissions instead of 1 + {P[want_set][1]} ({names[want_set]})',
+                          'parameter-set', kind, o))
+            continue
+        if o['stopping']:
+            # schedule_stop() has been called: _repeated_enqueue_msg drops the message.  Fine for an answer that the reader
+            # thread produces while stop() waits for the threads; the messages of an API call (the Byes of stop()) must go out
+            if o['thread'] == 'app':
+                fails.append((f'{kind} of an API call is dropped because the send thread was already told to stop', 'dropped-at-stop', kind, o))
+            stats['dropped-while-stopping'] += 1
+            continue
+        dr = o['draws']
+        if len(dr) != 2 or dr[0][0] != 'randint' or dr[1][0] != 'randrange':
+            fails.append((f'{kind}: the schedule does not draw randint + randrange once each: {dr}', 'draws', kind, o))
+            continue
+        line = f'{dr[0][3]} {dr[1][3]} | ' + ' '.join(f'{t}:{r}' for t, r in o['entries'])
+        why = oracle_envelope(P[want_set], line)
+        if why:
+            fails.append((f'{kind} ({cast}): queue entries {line!r}: {why}', 'envelope ' + why.split(' ')[0], kind, o))
+            continue
+        txs = tx_by.get(o['id'], [])
+        stats[f'transmissions={len(txs)}'] += 1
+        if len(txs) != 1 + P[want_set][1]:
+            fails.append((f'{kind} ({cast}) was transmitted {len(txs)} times instead of 1 + {P[want_set][1]}',
+                          'transmission-count', kind, {'out': o, 'tx': txs}))
+            continue
+        if any(x['dest'] != o['to'] for x in txs) or len({x['h'] for x in txs}) != 1:
+            fails.append((f'{kind}: the retransmissions differ in destination or content', 'retransmission-differs', kind,
+                          {'out': o, 'tx': txs}))
+            continue
+        wake = o['sender_wake'] if o['sender_wake'] is not None else o['t'] + idle
+        for (rel, _rep), x in zip(o['entries'], txs):
+            due = o['t'] + rel
+            latest = max(due, min(wake, o['t'] + idle)) + 2 * busy + 1000
+            stats['late_10ms=' + str(min((x['t'] - due) // 10000, 12))] += 1
+            if x['t'] < due or x['t'] > latest:
+                fails.append((f'{kind}: a transmission due at {due} us went out at {x["t"]} us (allowed until {latest} us)',
+                              'transmission-time', kind, {'out': o, 'tx': txs}))
+                break
+    stray = sorted({x['id'] for x in res['tx'] if x['id'] not in out_ids}, key=str)
+    if stray:
+        fails.append((f'datagrams were sent that no add_outbound_message call announced: ids {stray[:3]}', 'stray-transmission', None, None))
+    # ---- own messages are ignored when multicast loops them back (while the id is among the last cap ids)
+    cap = sc['cap'] or real_cap
+    mem, last_op = [], None
+    for k, e in enumerate(res['events']):
+        if e[0] == 'op':
+            if e[1] != 'in':
+                last_op = e[1]
+        elif e[0] == 'restart':
+            mem = []
+        elif e[0] == 'out':
+            mem = ([e[1]] + mem)[:cap]
+        else:
+            _, i, acted, own = e
+            if acted and i in mem:
+                what = ('own message' if own else 'already handled message') + \
+                       f' {i} is handed to handle_received_message although it is among the last {cap} ids' + \
+                       (f' (last operation before: {last_op})' if last_op else '')
+                fails.append((what, 'own-message-handled' if own else 'acted-while-known', None, {'event_index': k, 'after_op': last_op}))
+                break
+            if not acted and i not in mem:
+                fails.append((f'new message id {i} was not handed to the discovery handler', 'new-id-dropped', None, {'event_index': k}))
+                break
+            if own:
+                stats['own-loopback:' + ('ignored' if not acted else 'handled-after-eviction') + ':after-' + str(last_op)] += 1
+            else:
+                stats['foreign:' + ('handled' if acted else 'duplicate-ignored')] += 1
+            if acted:
+                mem = ([i] + mem)[:cap]
+    for st in res['steps']:
+        stats[f'in-flight-at:{st["op"]}:{min(st["own_in_flight"], 3)}'] += 1
+    return fails, stats
+
+
+API_OPS = ['OpPublish', 'OpClearService', 'OpClearLocal', 'OpClearRemote', 'OpSearch', 'OpFound', 'OpStop']   # order of Udp.v api_op
+
+
+def node_events_to_model(events):
+    """event log of the simulation -> request tokens of ocaml/driver_c15.ml (node mode) + the observed handler flags"""
+    evs, acted = [], []
+    for e in events:
+        if e[0] == 'op':
+            if e[1] == 'in':          # the driver injecting a datagram of a peer: not an operation of the node
+                continue
+            evs.append(f'p{API_OPS.index(OP_TO_COQ[e[1]])}')
+            acted.append(0)
+        elif e[0] == 'restart':
+            evs.append('r')
+            acted.append(0)
+        elif e[0] == 'out':
+            evs.append(f'o{e[1]}')
+            acted.append(0)
+        else:
+            evs.append(f'i{e[1]}')
+            acted.append(int(bool(e[2])))
+    return evs, acted
+
+
+def model_node(exe, lines):
+    out = subprocess.run([exe, 'node'], input='\n'.join(lines) + '\n', capture_output=True, text=True, timeout=300)
+    if out.returncode != 0:
+        return None, (out.stderr or out.stdout)[-600:]
+    return out.stdout.splitlines(), None
+
+
+def run_node_stream(ctx, P, real_cap, exe):
+    n = ctx.n(220, 2500)
+    cases = [gen_node_case(ctx.rng, ctx.rng.randint(1, 10 ** 9)) for _ in range(n)]
+    r = ctx.impl('c15_impl', {'cap': 3, 'dedup': [], 'grid': False, 'node': cases}, timeout=1200)
+    if r.get('_crash'):
+        ctx.broken('correspondence', 'node', r['stderr'][-1200:])
+        return
+    stats = collections.Counter()
+    kind_cases, dd_cases = {}, []
+    for sc, res in zip(cases, r['node']):
+        fails, st = oracle_node(sc, res, P, real_cap)
+        stats.update(st)
+        for op in sc['ops']:
+            stats['op:' + (op[1] if op[1] != 'in' else 'in-' + op[4]['kind'])] += 1
+        stats['cap:' + str(sc['cap'] or 'real')] += 1
+        for what, clause, kind, detail in fails:
+            ctx.fail('node: ' + what, {'stream': 'node', 'clause': clause, 'kind': kind},
+                     {'stream': 'node', 'case': sc, 'oracle': {'verdict': 'fail', 'clause': clause, 'detail': detail},
+                      'impl_trace': {'outs': [{k: o[k] for k in ('id', 't', 'kind', 'to', 'pset', 'relates', 'draws', 'entries')}
+                                               for o in res['outs']],
+                                     'events': res['events'], 'handled': res['handled'], 'steps': res['steps'],
+                                     'known': res['known']}})
+        if res['unexpected_draws']:
+            ctx.broken('correspondence', 'node: random draws', f'draws outside add_outbound_message: {res["unexpected_draws"][:3]}')
+        if res['notes']:
+            ctx.broken('correspondence', 'node: harness', res['notes'])
+        for o in res['outs']:
+            dr = o['draws']
+            if o['kind'] in MULTICAST_KINDS + UNICAST_KINDS and not o['stopping'] and len(dr) == 2:
+                kind_cases.setdefault((o['kind'], dr[0][3], dr[1][3]), o['entries'])
+                if kind_cases[(o['kind'], dr[0][3], dr[1][3])] != o['entries']:
+                    ctx.broken('correspondence', 'node-kinds', f'{o["kind"]} with the same draws got two different schedules')
+        evs, acted = node_events_to_model(res['events'])
+        dd_cases.append((f'D {sc["cap"] or real_cap} ' + ' '.join(evs),
+                         ' '.join(str(x) for x in res['known']) + ' | ' + ' '.join(str(x) for x in acted), sc, res))
+    ctx.log(f'node: {len(cases)} scenarios simulated and judged at {time.time() - ctx.t0:.0f}s')
+    # the extracted model on the same inputs: kind_schedule_us (Gen_Kinds table + Gen_Params constants) for every message,
+    # drun (with the public operations and restarts as events) for every event log
+    keys = sorted(kind_cases)
+    if exe:
+        mk, err = model_node(exe, [f'K {k} {d0} {g}' for k, d0, g in keys])
+        if err or len(mk) != len(keys):
+            ctx.broken('correspondence', 'node-kinds (extracted model)', err or f'{len(mk)} answers for {len(keys)} requests')
+        else:
+            n_bad = sum(1 for m in mk if m.endswith('BAD'))
+            if n_bad:
+                ctx.broken('theorem', 'kind_count_ok twin', f'the model sends a message kind with the count of the other parameter set ({n_bad} cases)')
+            diffs = [i for i, (key, m) in enumerate(zip(keys, mk))
+                     if m.rsplit(' ', 1)[0].split() != [f'{t}:{i}' for t, i in kind_cases[key]]]
+            for i in diffs[:1]:
+                ctx.broken('correspondence', 'node-kinds', {'disagreements': len(diffs), 'first': {'kind,d0,g': keys[i], 'impl': kind_cases[keys[i]], 'model': mk[i]}})
+        md, err = model_node(exe, [a for a, _, _, _ in dd_cases])
+        if err or len(md) != len(dd_cases):
+            ctx.broken('correspondence', 'node-dedup (extracted model)', err or f'{len(md)} answers for {len(dd_cases)} requests')
+        else:
+            diffs = [i for i, (c, m) in enumerate(zip(dd_cases, md)) if m.split() != c[1].split()]
+            for i in diffs[:1]:
+                _, exp, sc, res = dd_cases[i]
+                ctx.broken('correspondence', 'node-dedup', {'disagreements': len(diffs), 'first': {'case': sc, 'events': res['events'],
+                                                                                                  'impl (memory | handled)': exp, 'model': md[i]}})
+    ctx.log(f'node: model evaluated at {time.time() - ctx.t0:.0f}s')
+
+    def sub(prefix):
+        return {k[len(prefix):]: v for k, v in sorted(stats.items()) if k.startswith(prefix)}
+    hist = {'messages_kind:set:destination': {k: v for k, v in sorted(stats.items()) if k.split(':')[0] in MULTICAST_KINDS + UNICAST_KINDS},
+            'operations': sub('op:'), 'memory_capacity': sub('cap:'), 'transmissions_per_message': sub('transmissions='),
+            'lateness_10ms': sub('late_10ms='), 'own_loopbacks': sub('own-loopback:'), 'foreign_datagrams': sub('foreign:'),
+            'own_messages_in_flight_at_operation': sub('in-flight-at:'), 'dropped_while_stopping': stats['dropped-while-stopping']}
+    ctx.count('node', len(cases), [json.dumps(c, sort_keys=True) for c in cases], **hist)
+    ctx.count('node-kinds', len(keys), keys)
+    for name in ('messages_kind:set:destination', 'operations', 'own_loopbacks', 'own_messages_in_flight_at_operation',
+                 'transmissions_per_message', 'foreign_datagrams', 'memory_capacity'):
+        ctx.log(f'node {name}: {json.dumps(hist[name])}')
+    if cases:
+        ctx.sample({'stream': 'node', 'case': cases[0], 'events': r['node'][0]['events'],
+                    'outs': [[o['kind'], o['pset'], o['to'], o['entries']] for o in r['node'][0]['outs']]})
+
+
 def run(ctx):
     ctx.regenerate('gen_wsd_params', 'Wsd/Gen_Params.v')
+    ctx.regenerate('gen_wsd_kinds', 'Wsd/Gen_Kinds.v')
     proof_ok = ctx.prove()
     if not proof_ok:
         ctx.broken('theorem', 'Props/C15.v', ctx.proof_error)
@@ -104,6 +408,7 @@ def run(ctx):
     if not impl.get('dropped_when_stopped'):
         ctx.broken('correspondence', 'stopped-sender', 'a message was queued although the sender is stopped')
 
+    ctx.log(f'schedule grid done at {time.time() - ctx.t0:.0f}s')
     # ---------------------------------------------------------------- stream 2: known message ids
     by_cap = {}
     for cap, evs in dd_cases:
@@ -119,7 +424,7 @@ def run(ctx):
     cases = []
     n_evict = 0
     for cap, evl in by_cap.items():
-        r = ctx.impl('c15_impl', {'cap': cap, 'dedup': evl})
+        r = ctx.impl('c15_impl', {'cap': cap, 'dedup': evl, 'grid': False})
         if r.get('_crash'):
             ctx.broken('correspondence', 'dedup', r['stderr'])
             continue
@@ -156,6 +461,7 @@ def run(ctx):
     ctx.count('dedup', len(cases), [(c[2], tuple(map(tuple, c[3]))) for c in cases], at_capacity_steps=n_evict)
     ctx.sample({'stream': 'dedup', 'cap': cases[0][2], 'events': cases[0][3], 'impl': cases[0][4]} if cases else None)
 
+    ctx.log(f'dedup done at {time.time() - ctx.t0:.0f}s')
     # ---------------------------------------------------------------- stream 3: the send loop (actual transmissions)
     # the real _run_send on a virtual clock; several messages in flight, enqueued at different times
     sl_cases = []
@@ -168,7 +474,7 @@ def run(ctx):
             inj.append({'id': f'm{j}', 'params': pname, 'at_ms': 0 if j == 0 else ctx.rng.choice([0, 5, 37, 120, 333, 800, 1500]),
                         'd0': ctx.rng.randint(0, P[0]), 'g': ctx.rng.randint(P[2], P[3] - 1)})
         sl_cases.append(inj)
-    r = ctx.impl('c15_impl', {'cap': 3, 'dedup': [], 'sendloop': sl_cases})
+    r = ctx.impl('c15_impl', {'cap': 3, 'dedup': [], 'grid': False, 'sendloop': sl_cases})
     if r.get('_crash'):
         ctx.broken('correspondence', 'sendloop', r['stderr'][-800:])
     else:
@@ -213,6 +519,10 @@ def run(ctx):
         if sl_cases:
             ctx.sample({'stream': 'sendloop', 'messages': sl_cases[0], 'impl': r['sendloop'][0]})
 
+    # ---------------------------------------------------------------- stream 4: the whole node (kinds, own ids)
+    ctx.log(f'sendloop done at {time.time() - ctx.t0:.0f}s')
+    run_node_stream(ctx, impl['params'], real_cap, exe)
+
     if ctx.thorough:
         hits = ctx.gate_grep(['Wsd', 'Common', 'Props/C15.v'] if False else ['Wsd', 'Common'])
         if hits:
@@ -224,12 +534,35 @@ def run(ctx):
              'and judged by the envelope oracle; distinct = distinct queue contents. dedup: random Out/In event lists '
              'over small capacities plus one run across the real capacity; distinct = distinct (cap, events). sendloop: '
              'the real _run_send on a virtual clock with 1-4 messages in flight, enqueued at different times; every actual '
-             'transmission is compared with the queue entry it belongs to (oracle only, no model).',
+             'transmission is compared with the queue entry it belongs to (oracle only, no model). node: random scenarios '
+             '(3-9 operations at distances of 0-2.6 s: publish_service, clear_service, clear_local_services, '
+             'clear_remote_services, search_services, search_multiple_types, get_found_remote_services, stop+start, '
+             'datagrams of peers of all six kinds incl. repeated ones and bursts) on the real WSDiscovery + the real '
+             'NetworkingThread inside a discrete-event simulation (fake socket/selectors/threading/queue/time/random '
+             'modules; every multicast transmission is looped back); for EVERY outgoing message the oracle checks '
+             'destination and parameter set against its kind (Hello/Bye/Probe/Resolve: group + multicast set; '
+             'ProbeMatches/ResolveMatches: requester + unicast set), the queue entries against the envelope of THAT set, '
+             'the datagrams actually sent (count 1 + repeat, same destination and bytes, send raster), and for every '
+             'datagram read that an id among the last cap registered ids is not handed to the handler (own ids after '
+             'each operation); node-kinds / node-dedup: the same messages / event logs through the extracted model '
+             '(kind table traced into Gen_Kinds.v; operations and restarts are events of the id-memory model); '
+             'distinct = distinct scenarios resp. distinct (kind, d0, g).',
         assumptions=['time.time() is constant during one call of _repeated_enqueue_msg (virtual clock)',
                      'float arithmetic on send times is exact to 1 us for the value ranges involved (times are rounded to us)',
-                     'PriorityQueue returns entries in send_time order'],
+                     'PriorityQueue returns entries in send_time order',
+                     'node stream: threads of the node interleave only where they block (sleep, queue get, select, join): '
+                     'one thread runs at a time, so races inside a critical region are not explored',
+                     'node stream: multicast loop-back delivers every own multicast datagram to the own multicast socket '
+                     '(IP_MULTICAST_LOOP default), nothing is lost or reordered',
+                     'a restart (stop + start) leaves no own transmission in flight: stop() joins the send thread and closes the sockets'],
         trusted_base=['translator harness/impl/gen_wsd_params.py (constants and deque maxlen read from the source)',
+                      'translator harness/impl/gen_wsd_kinds.py (kind -> parameter set / destination table traced from the '
+                      'real WSDiscovery with a recording networking thread; cross-checked by the node-kinds stream)',
                       'extraction: ExtrOcamlBasic only, no Extract Constant/Inductive of our own; ocaml/driver_c15.ml + zutil.inc',
                       'correspondence harness harness/impl/c15_impl.py (rebinds networkingthread.random/time, builds '
-                      'NetworkingThread without sockets via object.__new__)'],
-        not_modelled=['UDP sockets; the send loop (_run_send) is not modelled in Coq: its transmissions are judged by the sendloop oracle against the queue entries (10 ms raster)', 'XML parsing of incoming datagrams (real parser is used, not modelled)'])
+                      'NetworkingThread without sockets via object.__new__)',
+                      'simulation harness/impl/c15_sim.py (lock-step scheduler, fake socket/selectors/threading/queue/time '
+                      'modules for networkingthread.py, time/random for wsdimpl.py)'],
+        not_modelled=['UDP sockets; the send loop (_run_send) is not modelled in Coq: its transmissions are judged by the sendloop and node oracles against the queue entries (10 ms raster)',
+                      'XML parsing of incoming datagrams (real parser is used, not modelled)',
+                      'the content of the discovery messages and the matching of Probe filters (C14)'])
